@@ -12,12 +12,12 @@ CHECKS = {
    ref="DESIGN.md §6 C01"),
  "C02": dict(cat=MC, engine="E1",
    technique="explicit-state exploration of the real canister: exhaustive DFS over block-arrival histories (all tree shapes x arrival orders x difficulty assignments x thresholds) with a brute-force reference chain selection as oracle in every state",
-   text="Every state reachable by <= n block deliveries (n=5-6 quick, 6-7 thorough; difficulty sets {1,2,3}, {1,2,5}, {1,4}; thresholds 1-3; regtest through full validation, mainnet/testnet through push) is visited on the real code and get_blockchain_info / unfiltered get_utxos / get_balance / get_block_headers are compared with the heaviest chain recomputed by brute force (all leaf paths, (sum difficulty, length), arrival tie-break). A fee-carrying part (lazy and eager fee mode, forks with different fees, reorgs) compares get_current_fee_percentiles with the reference percentiles of the heaviest chain. Bounded exhaustive: nothing is claimed beyond the bound.",
+   text="Every state reachable by <= n block deliveries (n=5-6 quick, 6-7 thorough; difficulty sets {1,2,3}, {1,2,5}, {1,4}; thresholds 1-3; regtest through full validation, mainnet/testnet through push) is visited on the real code and get_blockchain_info / unfiltered get_utxos / get_balance / get_block_headers are compared with the heaviest chain recomputed by brute force (all leaf paths, (sum difficulty, length), arrival tie-break). A fee-carrying part (lazy and eager fee mode, forks with different fees, reorgs) compares get_current_fee_percentiles with the reference percentiles of the heaviest chain; a tall family grows a long light branch (hundreds of blocks) next to a short heavy one and judges the served tip after every arrival. Bounded exhaustive: nothing is claimed beyond the bound.",
    note="rust-bitcoin hashing/serialisation shared with the implementation; mock difficulty via feature mock_difficulty; ingestion unsliced in this check (sliced states belong to C07/C08)",
    ref="DESIGN.md §6 C02"),
  "C03": dict(cat=MC, engine="E1",
    technique="explicit-state exploration of the real canister with history monitors on every transition (six finality clauses) plus an exhaustively enumerated depth-escape family",
-   text="All TREE histories (<= 4-5 quick, 5-7 thorough blocks; difficulties 1-3 and {1,3} nested forks whose longer branch is lighter; sliced ingestion; thresholds 1-3 incl. set_config changes mid-history; three networks) with monitors on every transition: stable height monotone, recorded stable blocks immutable and on the anchor chain, every anchor advance goes to the child that qualifies under the difficulty rule (recomputed from scratch), no qualifying child is left after an ingestion opportunity, the new anchor is the second block of the served chain, blocks disappear only with the advance and exactly the losers. Depth escape: heavy anchor, main branch grown to 520 blocks against forks of 0-5 blocks, and a contested variant where the competing branch follows at a constant distance until the tree holds 1600-2600 unstable blocks; bound recomputed in exact rational arithmetic.",
+   text="All TREE histories (<= 4-5 quick, 5-7 thorough blocks; difficulties 1-3 and {1,3} nested forks whose longer branch is lighter; sliced ingestion; thresholds 1-3 incl. set_config changes mid-history; three networks) with monitors on every transition: stable height monotone, recorded stable blocks immutable and on the anchor chain, every anchor advance goes to the child that qualifies under the difficulty rule (recomputed from scratch), no qualifying child is left after an ingestion opportunity, the new anchor is the second block of the served chain, blocks disappear only with the advance and exactly the losers. Depth escape: heavy anchor, main branch grown to 520 blocks against forks of 0-5 blocks, and a contested variant where the competing branch follows at a constant distance until the tree holds 1600-2600 unstable blocks, and a weighted variant (short heavy branch against a long light one: the rule is about the child on the served chain); bound recomputed in exact rational arithmetic.",
    note="escape judged only where runner-up is unambiguous; wide-and-deep trees only via the family",
    ref="DESIGN.md §6 C03"),
  "C04": dict(cat=MC, engine="E1",
@@ -34,7 +34,7 @@ CHECKS = {
    note="where two documented errors apply either is accepted", ref="DESIGN.md §6 C07"),
  "C08": dict(cat=MC, engine="E2",
    technique="exhaustive enumeration of all budget schedules (compositions of the slicing call sites) of a stabilising block, driven through the real heartbeat; state-equality across schedules and probe-equality against the pre-ingestion answers",
-   text="For 7 block shapes (spends of stable outputs, same-block spend, non-address scripts, many addresses, several blocks per round, fork discarded by the advance) all 2^(m-1) sequences of per-round budgets (m <= 14 quick, 18 thorough) are run through heartbeat() with a source that always offers a further block: no fetch while ingesting, every pause position reaches one identical state whatever the schedule, all probe answers at pauses equal those before that block's ingestion began, the final state equals the unsliced run, at most m rounds. Plus an upgrade at every pause position: answers unchanged by it, ingestion completes, final answers equal the unsliced run.",
+   text="For 7 block shapes (spends of stable outputs, same-block spend, non-address scripts, many addresses, several blocks per round, fork discarded by the advance) all 2^(m-1) sequences of per-round budgets (m <= 14 quick, 18 thorough) are run through heartbeat() with a source that always offers a further block: no fetch while ingesting, every pause position reaches one identical state whatever the schedule, all probe answers at pauses equal those before that block's ingestion began, the final state equals the unsliced run, at most m rounds. Plus an upgrade at every pause position (answers unchanged by it, ingestion completes, final answers equal the unsliced run) and set_config(syncing = disabled) at every pause position (ingestion still completes, without fetching).",
    note="budgets are counted in slicing call sites; statistics masked in fingerprints", ref="DESIGN.md §6 C08"),
  "C06": dict(cat=MC, engine="E2",
    technique="explicit-state exploration of pager/environment interleavings on the real canister (all placements of <= k environment events between page requests), plus exhaustive page-blob and real-limit families",
@@ -46,27 +46,27 @@ CHECKS = {
    note="native vector memory stands in for stable memory", ref="DESIGN.md §6 C09"),
  "C10": dict(cat=MC, engine="E1",
    technique="explicit-state exploration of base tree states x exhaustive enumeration of get_successors replies (items x announced headers) fed through the real heartbeat; atomicity by state comparison with the prefix-only reply",
-   text="In every TREE state (<= 3-4 blocks, with and without pending announced headers) every reply of <= 2-3 items over 26 item kinds (incl. valid boundary timestamps, the block of an announced header, a block whose parent is only an announced header) and every announced-header list of <= 2-3 entries over 10 kinds (incl. a header on top of a retained announced header, live or left over from a discarded fork): admitted blocks = longest admissible prefix, exactly one error counter +1 on a reject, complete state equal to the state after the prefix-only reply, heartbeat never traps, retained headers sound and complete; direct-call and heartbeat channels give equal states.",
+   text="In every TREE state (<= 3-4 blocks, with and without pending announced headers) every reply of <= 2-3 items over 27 item kinds (incl. valid boundary timestamps, the block of an announced header, a block whose parent is only an announced header, a re-mined twin of a tree block) and every announced-header list of <= 2-3 entries over 10 kinds (incl. a header on top of a retained announced header, live or left over from a discarded fork): admitted blocks = longest admissible prefix, exactly one error counter +1 on a reject, complete state equal to the state after the prefix-only reply, heartbeat never traps, retained headers sound and complete; direct-call and heartbeat channels give equal states.",
    note="regtest (mined) blocks only", ref="DESIGN.md §6 C10"),
  "C11": dict(cat=EX, engine="E3",
    technique="bounded-exhaustive enumeration of header-chain configurations against an independent re-implementation of Core's difficulty and timestamp rules",
-   text="Complete product of network x candidate position around period boundaries x bits patterns of the last four headers x gaps around 20 minutes x period timespans around the clamps x BIP94 first-bits variants, compared through wrappers of the private rule functions; timestamp rule on 6 patterns x chain lengths 1-14; end-to-end acceptance on regtest with mined/unmined headers; the canister's HeaderStore adaptor (height, header per height across stable store / unstable chain / pending announced headers, by-hash lookup, initial hash) is compared with the reference in every TREE+Hdr state through hook H9.",
+   text="Complete product of network (mainnet, testnet4, testnet3, regtest) x candidate position around period boundaries x bits patterns of the last four headers x gaps around 20 minutes x period timespans around the clamps x BIP94 first-bits variants, compared through wrappers of the private rule functions; timestamp rule on 6 patterns x chain lengths 1-14; end-to-end acceptance on regtest with mined/unmined headers; the canister's HeaderStore adaptor (height, header per height across stable store / unstable chain / pending announced headers, by-hash lookup, initial hash) is compared with the reference in every TREE+Hdr state through hook H9.",
    note="accept side on mainnet/testnet unreachable without real proof of work", ref="DESIGN.md §6 C11"),
  "C12": dict(cat=EX, engine="E3",
    technique="bounded-exhaustive enumeration of block mutations against an independent merkle routine and the four clauses of the statement",
-   text="For every transaction count 1..17 (65 thorough): all trailing-2^k duplications closed under composition (every CVE-2012-2459 mutant), the same with the copies' witnesses altered (same txid, other wtxid), every removal, adjacent swap, rotation, coinbase moves/duplicates, with the root left alone and recomputed, through validate_block and insert_block.",
+   text="For every transaction count 1..17 (65 thorough): all trailing-2^k duplications closed under composition (every CVE-2012-2459 mutant), the same with the copies' witnesses altered (same txid, other wtxid), every removal, adjacent swap, rotation, coinbase moves/duplicates, with the root left alone and recomputed, through validate_block and insert_block (fresh canister; header announced before; the valid block right after a rejected same-header variant).",
    note="independent merkle root and txid uniqueness reference", ref="DESIGN.md §6 C12"),
  "C13": dict(cat=MC, engine="E2",
    technique="deviation-bounded exhaustive exploration of message schedules at the get_successors await point (heartbeats parked at a cfg-guarded yield point, harness as executor), duplicate detection on complete state",
-   text="All schedules of {start heartbeat, normal/reject/empty reply, upgrade} with <= 4 (quick) / 7 (thorough) deviations from the sequential schedule over sources with pools of 4-6 blocks (with a fork, two competing branches, or a tall chain whose every reply announces new headers) and one block paginated into 1+p pages (p up to 3, and 255), on a canister configured with a non-default blocks source: at most one request outstanding, follow-ups numbered consecutively, what is stored after the last page equals what the source sent (block bytes and the headers announced with the first page), every header of a processed reply is pending afterwards, requests go to the configured source, reject/upgrade discard partial data and the next request is initial naming anchor and all other unstable blocks, no block twice, no heartbeat traps, and from every state a fault-free suffix syncs everything the source offers.",
+   text="All schedules of {start heartbeat, normal/reject/empty reply, upgrade} with <= 4 (quick) / 7 (thorough) deviations from the sequential schedule over sources with pools of 4-6 blocks (with a fork, two competing branches, or a tall chain whose every reply announces new headers) and one block paginated into 1+p pages (p up to 3, and 255; one pool with an empty follow-up page), on a canister configured with a non-default blocks source: at most one request outstanding, follow-ups numbered consecutively, what is stored after the last page equals what the source sent (block bytes and the headers announced with the first page), every header of a processed reply is pending afterwards, requests go to the configured source, reject/upgrade discard partial data and the next request is initial naming anchor and all other unstable blocks, no block twice, no heartbeat traps, and from every state a fault-free suffix syncs everything the source offers.",
    note="source honours its protocol; upgrades leak outstanding heartbeats as the IC does", ref="DESIGN.md §6 C13"),
  "C14": dict(cat=MC, engine="E1",
    technique="explicit-state exploration of tree histories with announced-header events x flag combinations; every endpoint x requested network called in every state",
-   text="TREE histories with chains of 1-4 announced headers on any live block (overtaken by arrivals, left on discarded forks, reached by the stable height) x the 4 flag combinations: 7 data endpoints x 3 networks must refuse iff access off, network mismatch, or (sync flag and highest connected announced header > best + 2; send_transaction exempt); exempt endpoints always answer. A mixed-difficulty part separates 'heaviest chain' from 'longest branch'. A schedule part (C13's explorer, sync flag on) lets the headers arrive the way they do in production - in complete and paginated get_successors replies, under rejects, upgrades and interleaved heartbeats - and judges the gate in every state.",
+   text="TREE histories with chains of 1-4 announced headers on any live block (overtaken by arrivals, left on discarded forks, reached by the stable height) x the 4 flag combinations: 7 data endpoints x 3 networks must refuse iff access off, network mismatch, or (sync flag and highest connected announced header > best + 2; send_transaction exempt); exempt endpoints always answer. A mixed-difficulty part separates 'heaviest chain' from 'longest branch'. A schedule part (C13's explorer, sync flag on) lets the headers arrive the way they do in production - in complete and paginated get_successors replies, under rejects, upgrades and interleaved heartbeats - and judges the gate in every state. In every state every validated announced header whose block has not arrived, above the stable height and attached to the tree, must still be pending.",
    note="headers of discarded forks are 'either' (C20 lets them be dropped)", ref="DESIGN.md §6 C14"),
  "C15": dict(cat=MC, engine="E1",
    technique="explicit-state exploration of fee-carrying histories through the real heartbeat against a stateful reference of the caching rule; exhaustive enumeration of the percentile routine; window boundary family",
-   text="Histories of <= 4-5 blocks with four fee bodies on any live block (forks with different fees, reorgs), upgrades, eager and lazy mode with query events: every answer equals nearest-rank percentiles of the reference fee rates of the chain observed at the last observation point. Percentile routine on n in [1,400] U {9999,10000,10001} x 5 patterns; 10,000-transaction window family.",
+   text="Histories of <= 4-5 blocks with four fee bodies on any live block (forks with different fees, reorgs), replies with an undecodable item behind the block, upgrades, eager and lazy mode with query events: every answer equals nearest-rank percentiles of the reference fee rates of the chain observed at the last observation point. Percentile routine on n in [1,400] U {9999,10000,10001} x 5 patterns; 10,000-transaction window family.",
    note="inside the cut block both readings accepted", ref="DESIGN.md §6 C15"),
  "C16": dict(cat=EX, engine="E3",
    technique="bounded-exhaustive enumeration of fee tables x instruction counts x requests x available cycles through the real endpoints with controllable cycle and instruction mocks",
